@@ -10,6 +10,8 @@ import traceback
 
 sys.path.insert(0, os.path.dirname(os.path.abspath(__file__)))
 import vlib  # noqa: E402
+import signal
+signal.signal(signal.SIGPIPE, signal.SIG_DFL)
 
 
 def load_prop_module(pid):
